@@ -2,6 +2,7 @@ package main
 
 import (
 	"fmt"
+	"os"
 	"go/token"
 	"strings"
 
@@ -339,6 +340,7 @@ func runC12(c *Ctx) {
 	checkStoredExpiryIsTheGivenInstant(c, "C12-R5")
 	checkLeaseNotMirroredIntoTimelessLockSet(c, "C12-R2")
 	checkLeaseRequestsReachTheStore(c, "C12-R3")
+	checkLeaseTestNamesJudgedOutput(c, "C12-R1")
 }
 
 // checkLeaseRelease: every success path of insertMinedTx passes a per-input unconditional unlockOutput.
@@ -613,19 +615,56 @@ func checkLeaseRequestsReachTheStore(c *Ctx, rule string) {
 			c.Unresolved(rule, "wallet.Wallet."+pair[0]+" / wtxmgr.Store."+pair[1])
 			continue
 		}
-		isStore := func(ins ssa.Instruction) bool { return p.isCallTo(ins, store) }
-		for _, f := range p.regionOf(entry) {
-			has := false
-			for _, ci := range callsOf(f) {
-				if isStore(ci) {
-					has = true
+		// ... and the entry point itself reports success only after the database transaction that hands it over: no
+		// shortcut before it (a "nothing to do for this identifier" guard acknowledges a release that never happened)
+		reaches := func(ins ssa.Instruction) bool {
+			ci, ok := ins.(ssa.CallInstruction)
+			if !ok {
+				return false
+			}
+			if p.isCallTo(ins, store) {
+				return true
+			}
+			// a call that is handed a function literal / part of the region which calls the store
+			var buf [8]*ssa.Value
+			for _, op := range ins.Operands(buf[:0]) {
+				if op == nil || *op == nil {
+					continue
+				}
+				var g *ssa.Function
+				switch x := (*op).(type) {
+				case *ssa.MakeClosure:
+					g, _ = x.Fn.(*ssa.Function)
+				case *ssa.Function:
+					g = x
+				}
+				if g != nil && p.inRegion(entry, g) && p.reachSet(g)[store] {
+					return true
 				}
 			}
-			if !has {
+			if g := ci.Common().StaticCallee(); g != nil && g != entry && p.inRegion(entry, g) && p.reachSet(g)[store] {
+				return true
+			}
+			return false
+		}
+		{
+			n++
+			bad := p.mustPassToSuccess(entry, nil, reaches, nil)
+			pos := entry.Pos()
+			if bad != nil {
+				pos = bad.Pos()
+			}
+			c.Check(rule, "lease-entry-always-hands-over:"+pair[0], pos, bad == nil,
+				"Wallet."+pair[0]+" can report success without having run the database transaction that hands the request to Store."+pair[1]+" (a guard returns nil first): the caller is told the lease was taken / released although nothing was written")
+		}
+		for _, f := range p.regionOf(entry) {
+			// every part on the way to the store (the transaction closure, a helper it calls) passes the hand-over on
+			// every success path
+			if f == entry || !p.reachSet(f)[store] {
 				continue
 			}
 			n++
-			bad := p.mustPassToSuccess(f, nil, isStore, nil)
+			bad := p.mustPassToSuccess(f, nil, reaches, nil)
 			pos := f.Pos()
 			if bad != nil {
 				pos = bad.Pos()
@@ -635,4 +674,91 @@ func checkLeaseRequestsReachTheStore(c *Ctx, rule string) {
 		}
 	}
 	c.Floor(rule, "wallet-level lease entry points that call the store", n, 2)
+}
+
+// checkLeaseTestNamesJudgedOutput: where a pass asks "is this output leased" for an outpoint it builds on the spot, the
+// index in that outpoint is the index of the output the same iteration looks up as unconfirmed-spent and as a credit:
+// all per-output index arguments of one loop body are one value. With the lease asked of another index (an enclosing
+// loop's counter that happens to be in scope) a leased output is subtracted twice, or its unleased siblings not at all.
+func checkLeaseTestNamesJudgedOutput(c *Ctx, rule string) {
+	p := c.P
+	n := 0
+	for _, fn := range p.FuncsIn("wtxmgr") {
+		loops := loopsOf(fn)
+		for _, call := range callsNamed(fn, "isLockedOutput") {
+			if len(call.Call.Args) < 2 {
+				continue
+			}
+			l := innermostLoopOf(loops, call)
+			if l == nil {
+				continue
+			}
+			// the Index the outpoint was given in this iteration
+			var idx ssa.Value
+			u, ok := stripConv(call.Call.Args[1]).(*ssa.UnOp)
+			if !ok {
+				continue
+			}
+			al, ok := u.X.(*ssa.Alloc)
+			if !ok {
+				continue
+			}
+			// `op = wire.OutPoint{...}` into a variable declared outside the loop: the literal stored in this iteration
+			for _, st := range storesTo(al) {
+				if !l.Blocks[st.Block()] {
+					continue
+				}
+				if ld, ok := stripConv(st.Val).(*ssa.UnOp); ok && ld.Op == token.MUL {
+					if lit, ok := ld.X.(*ssa.Alloc); ok {
+						al = lit
+					}
+				}
+			}
+			for _, use := range usesOf(al) {
+				fa, ok := use.(*ssa.FieldAddr)
+				if !ok {
+					continue
+				}
+				if _, f := fieldAddrName(fa); f != "Index" {
+					continue
+				}
+				for _, u2 := range usesOf(fa) {
+					if st, ok := u2.(*ssa.Store); ok && st.Addr == ssa.Value(fa) && l.Blocks[st.Block()] {
+						idx = stripConv(st.Val)
+					}
+				}
+			}
+			if os.Getenv("VERIF_DEBUG") != "" {
+				fmt.Println("DEBUG lease-test", fn.Name(), call.Pos(), idx, al)
+			}
+			if idx == nil {
+				continue
+			}
+			// sibling per-output index arguments in the same loop body
+			for b := range l.Blocks {
+				for _, ins := range b.Instrs {
+					sib, ok := ins.(*ssa.Call)
+					if !ok || sib == call {
+						continue
+					}
+					g := sib.Call.StaticCallee()
+					if g == nil || fnPkgPath(g) != fnPkgPath(fn) || len(g.Params) != len(sib.Call.Args) {
+						continue
+					}
+					if innermostLoopOf(loops, sib) != l {
+						continue
+					}
+					for i, prm := range g.Params {
+						if prm.Name() != "index" {
+							continue
+						}
+						n++
+						c.Check(rule, "lease-test-names-the-judged-output:"+fn.Name()+"/"+g.Name(), sib.Pos(), stripConv(sib.Call.Args[i]) == idx,
+							fnName(fn)+" asks the lease of one output index and looks another one up with "+g.Name()+" in the same iteration: a leased output is taken off the balance a second time, or its unleased under-confirmed siblings are not taken off at all")
+					}
+				}
+			}
+		}
+	}
+	c.Floor(rule, "per-output lookups next to a lease test", n, 2)
 }
